@@ -6,6 +6,7 @@ CONSTANTS
   MaxK = 2
   M = 4
   Eager = FALSE
+  AppLimited = FALSE
   Tier = "reno"
   N <- RN
   Plus <- RPlus
